@@ -1,6 +1,28 @@
-# C45 - end-of-line filters: BOUNDED stand-in only (bounded/C45.py), labelled exploration and never counted as proved.
-# The converters need bytes.replace with a two-byte pattern and a look-behind regular expression; an inductive proof would rest
-# mostly on trusted encodings of those builtins, so the contract is checked exhaustively on the real functions instead.
+# C45 - eol content filters round-trip. The property as a whole (reader(writer(c)) == c for canonical content) is decided by the bounded
+# stand-in (bounded/C45.py, labelled exploration; it carries known finding F8). Two conjuncts are proved for ALL inputs:
+#   - both converters depend on the CONCATENATION of the chunks only (never on where the chunk boundaries fall) and return one chunk;
+#   - content containing a NUL byte passes through both converters unchanged.
 LEVEL = "exploration"
-undecided("everything: no obligation is discharged deductively for this property; see bounded/C45.py for the stated bounds")
-undecided("'a freshly checked-out tree with eol filters reports no changes' (working tree + dirstate: external)")
+JoinB = fold_cat("JoinB", Seq(BYTES), BYTES, lambda e: e)
+CrlfOf = ufunc("CrlfOf", BYTES, BYTES)        # _UNIX_NL_RE.sub(b"\r\n", content): every LF not preceded by CR becomes CR LF (regex: assumed a function of the content)
+LfOf = ufunc("LfOf", BYTES, BYTES)            # content.replace(b"\r\n", b"\n")
+NUL = lift(b"\x00")
+assumed("b''.join", pure=True, no_raise=True, returns=lambda c: JoinB(c.args[0]))
+assumed("_UNIX_NL_RE.sub", pure=True, no_raise=True, returns=lambda c: CrlfOf(c.args[1]),
+        requires=lambda c: c.args[0] == lift(b"\r\n"))
+assumed("content.replace", pure=True, no_raise=True, returns=lambda c: LfOf(c.content),
+        requires=lambda c: And(c.args[0] == lift(b"\r\n"), c.args[1] == lift(b"\n")))
+E = "breezy/filters/eol.py::"
+target(E + "_to_crlf_converter", params=dict(chunks=Seq(BYTES), context=ANY), result=Seq(BYTES), modifies=[],
+       ensures={"a_function_of_the_joined_content_only": lambda c: c.result == lift([If(In(NUL, JoinB(c.old.chunks)), JoinB(c.old.chunks),
+                                                                                        CrlfOf(JoinB(c.old.chunks)))], Seq(BYTES)),
+                "binary_content_is_untouched": lambda c: Implies(In(NUL, JoinB(c.old.chunks)), JoinB(c.result) == JoinB(c.old.chunks))},
+       raises={}, canary=lambda c: Len(c.result) == 0)
+target(E + "_to_lf_converter", params=dict(chunks=Seq(BYTES), context=ANY), result=Seq(BYTES), modifies=[],
+       ensures={"a_function_of_the_joined_content_only": lambda c: c.result == lift([If(In(NUL, JoinB(c.old.chunks)), JoinB(c.old.chunks),
+                                                                                        LfOf(JoinB(c.old.chunks)))], Seq(BYTES)),
+                "binary_content_is_untouched": lambda c: Implies(In(NUL, JoinB(c.old.chunks)), JoinB(c.result) == JoinB(c.old.chunks))},
+       raises={}, canary=lambda c: Len(c.result) == 0)
+
+undecided("what the two substitutions do to the content (regex / bytes.replace) and therefore the round trip reader(writer(c)) == c: "
+          "bounded stand-in only (bounded/C45.py); the per-setting filter table _eol_filter_stack_map")
